@@ -212,6 +212,7 @@ async fn spawn(engine: nu::Engine, store: Store, task: GeneratorTask) {
         let options = ReadOptions::builder()
             .follow(FollowOption::On)
             .last_id(start.id)
+            .context_id(task.context_id)
             .build();
         let rx = store.read(options).await;
 
